@@ -171,6 +171,24 @@ Proof.
   - exists [], (c :: r). cbn. repeat split; auto.
 Qed.
 
+(* converse of [atoi_shape]: a well-shaped string parses to its value when that fits int64, and is an error otherwise *)
+Lemma atoi_complete sign ds :
+  sign = [] \/ sign = [43] \/ sign = [45] -> ds <> [] -> forallb is_digit ds = true ->
+  let v := if bytes_eqb sign [45] then - dval 0 ds else dval 0 ds in
+  atoi (sign ++ ds) = if int64b v then Some v else None.
+Proof.
+  intros S N D v.
+  assert (digits ds = Some (dval 0 ds)) as Dg.
+  { unfold digits. destruct ds; [congruence|]. now rewrite D. }
+  destruct S as [->|[->| ->]]; cbn [app] in *.
+  - destruct ds as [|c r]; [congruence|]. unfold atoi. cbv zeta.
+    assert (is_digit c = true) as Hc by (cbn [forallb] in D; apply andb_true_iff in D; tauto).
+    unfold is_digit in Hc. replace (c =? 45) with false by lia. replace (c =? 43) with false by lia.
+    cbn [orb]. rewrite Dg. reflexivity.
+  - unfold atoi. cbv zeta. cbn [Z.eqb Pos.eqb orb]. rewrite Dg. reflexivity.
+  - unfold atoi. cbv zeta. cbn [Z.eqb Pos.eqb orb]. rewrite Dg. reflexivity.
+Qed.
+
 (* ---------- ParseBool ---------- *)
 Lemma existsb_bytes_In s l : existsb (bytes_eqb s) l = true <-> In s l.
 Proof.
